@@ -19,9 +19,12 @@ histories: `harness/corr/instancex.py`):
 Not carried, because not instance state across conversions: `InlineProcessor.stashed_nodes` (re-initialised by
 every `run`), the ids the toc extension has seen (collected per run from the tree), `md.parser.state` (empty after
 every conversion that returns; `reset()` clears it since the repair of F-C11-1).  Constant since construction:
-`ESCAPED_CHARS`, `block_level_elements`, the registries, the configuration of the extensions.  The side outputs
-`md.toc` / `md.toc_tokens` are overwritten by every non-blank conversion and are not part of the answer of
-`convertX` (they are not modelled here either).
+`ESCAPED_CHARS`, `block_level_elements`, the registries, the configuration of the extensions.
+
+Side outputs: `md.toc` and `md.toc_tokens` (flat: level, id, name of every heading in the toc depth, before
+`nest_toc_tokens`) are written by `TocTreeprocessor.run` in every conversion that reaches it, cleared by `reset()`, and
+read by nobody; a blank document returns before any stage runs and leaves them as they were.  They are kept in the
+state (`toc`, `tocTokens`) so that "same side outputs" is part of the statements.
 
 `convertS x cfg st src` threads the carried state through the SAME stage functions as `convertX`
 (`Block.parseChunk` with the carried log, `Fenced.fencedLoopA` and `InlineX.runLoopX` with the carried stash and
@@ -46,6 +49,12 @@ structure MdSt where
   fn : Footnotes.State := Footnotes.State.empty
   /-- `false` after a conversion that did not return normally (or was outside the modelled domain) -/
   valid : Bool := true
+  /-- side output `md.toc` (with the `toc` extension; `''` after `reset()`); `none` = the model ran out of fuel in
+      the postprocessors of the toc string (never observed; impossible when no stash entry contains STX,
+      `C02_rawHtml_total`) — the answer of `convert` does not depend on it -/
+  toc : Option Str := some []
+  /-- side output `md.toc_tokens`, flat: (level, id, name) in document order -/
+  tocTokens : List Toc.Tok := []
   deriving DecidableEq, Repr
 
 /-- `Markdown(extensions=…)`: a new instance (the constructor ends with `self.reset()`) -/
@@ -74,6 +83,17 @@ def prepareS (x : Exts) (cfg : Cfg) (html : List Str) (src : Str) : FootnotesTre
     | .ok t' stash => .ok (Extract.extract t', stash)
     | _ => .oof
   else .ok (Extract.extract t, html)
+
+/-- the side outputs of `TocTreeprocessor.run` on the tree `t` it is given: the tokens (before `nest_toc_tokens`) and
+    `md.toc` = the serialised `div.toc` after all postprocessors.  (When `TocTree.run` answers, the first two matches
+    take their `some` / `ok` branches: they are the first steps of `TocTree.run`.) -/
+def tocSide (x : Exts) (cfg : Cfg) (html : List Str) (t : Node) : List Toc.Tok × Option Str :=
+  match TocTree.usedIds (TocTree.idsOf t) with
+  | none => ([], none)
+  | some used =>
+    match TocTree.walkNode { fmt := cfg.fmt, post := postX x cfg html } t { used := used, toks := [] } with
+    | .ok (_, ts) => (ts.toks, postX x cfg html (Ser.serialize cfg.fmt (TocTree.buildDiv cfg.blockLevel ts.toks)))
+    | _ => ([], none)
 
 /-- result of the stages before the serializer, with the state afterwards -/
 inductive TreeResultS
@@ -125,6 +145,9 @@ def treeS (x : Exts) (cfg : Cfg) (st : MdSt) (src : Str) : TreeResultS :=
               if x.toc then
                 TocTree.run { fmt := cfg.fmt, post := postX x cfg xs.st.html } cfg.blockLevel t
               else .ok t
+            -- `self.md.toc_tokens = toc_tokens; self.md.toc = toc`
+            let side : List Toc.Tok × Option Str :=
+              if x.toc then tocSide x cfg xs.st.html t else (st.tocTokens, st.toc)
             match tocStage with
             | .oof => .oof
             | .err => .err
@@ -132,7 +155,8 @@ def treeS (x : Exts) (cfg : Cfg) (st : MdSt) (src : Str) : TreeResultS :=
             | .ok t =>
               match TreeProc.unescapeTree t with
               | none => .err
-              | some u => .ok u { log := log, html := xs.st.html, fn := xs.fn, valid := true }
+              | some u =>
+                .ok u { log := log, html := xs.st.html, fn := xs.fn, valid := true, toc := side.2, tocTokens := side.1 }
 
 /-- the state after a conversion that did not return normally: not modelled until `reset()` -/
 def MdSt.invalid (st : MdSt) : MdSt := { st with valid := false }
